@@ -412,9 +412,9 @@ NAMES_ADV = ['1', '11', 'A', 'AA', 'a b', '0', 'x_internal_y', 'n (m)', '10', '0
 
 def gen_portfolio(rnd, kinds=None, tmax=14, tz_prob=0.15, allow_mip=True, max_assets=5, nodes_max=3,
                   allow_freq=True, allow_periodic=True, allow_wacc=True, grids=None, market_prob=0.95,
-                  allow_struct=True, adv_names=False, allow_blocks=True):
+                  allow_struct=True, adv_names=False, allow_blocks=True, tmin=2):
     """a random portfolio scenario; `kinds` restricts the asset kinds drawn"""
-    g = gen_grid(rnd, tmin=2, tmax=tmax, tz_prob=tz_prob, grids=grids)
+    g = gen_grid(rnd, tmin=min(tmin, tmax), tmax=tmax, tz_prob=tz_prob, grids=grids)
     from . import scen
     tg = scen.make_grid(g)
     T = tg.T
